@@ -20,7 +20,9 @@
 EXTENDS Dom, SequencesExt, TLC
 
 CONSTANTS WalkerCapturesNext,   \* FALSE reproduces the lost-siblings defect (fixed in f54c457)
-          EmptyBlockFlushes     \* FALSE reproduces the silently skipped empty block (fixed later, see known_findings.json)
+          EmptyBlockFlushes,    \* FALSE reproduces the silently skipped empty block (fixed later, see known_findings.json)
+          EmptyLooksAtChildren  \* FALSE reproduces the block taken for empty because it has as many child elements as there
+                                \* are line breaks anywhere below it: <div><a><img><br></a></div> lost its image (fixed in 6fa6256)
 
 \* kinds this model covers (layout tables need the tbody/tr/td wrappers and are left to the black-box checks)
 ModelKinds == AllKinds \ {"LT"}
@@ -40,15 +42,16 @@ Act(doc, i) ==
     IN  [flush |-> blk, lvl |-> blk \/ k \in AnchorKinds, anchor |-> k \in AnchorKinds, node |-> i]
 
 HasWordBelow(doc, i) == \E j \in (i+1)..SubtreeEnd(doc, i) : HasWords(doc[j].k) \/ doc[j].k = "LNK"
-\* isElementWithoutContent (div, section, header, h1..h6, and since 18a8bea p and the other block-level tags): no text below, and either no element
-\* child at all or as many element children as there are br elements anywhere below (the code
-\* compares the number of CHILD elements with the number of DESCENDANT br/hr elements)
+\* isElementWithoutContent (div, section, header, h1..h6, and since 18a8bea p and the other block-level tags): no text below, and
+\* every child element is a line break.  (Before 6fa6256 the code compared the number of CHILD elements with the
+\* number of DESCENDANT br/hr elements.)
 ElemChildren(doc, i) == {j \in Children(doc, i) : doc[j].k \notin TextKinds \cup {"CMT"}}
 BrBelow(doc, i)      == {j \in (i+1)..SubtreeEnd(doc, i) : doc[j].k = "BR"}
 WithoutContent(doc, i) ==
     /\ doc[i].k \in {"DIV", "H", "MRK", "P"}
     /\ ~HasWordBelow(doc, i)
-    /\ (ElemChildren(doc, i) = {} \/ Cardinality(ElemChildren(doc, i)) = Cardinality(BrBelow(doc, i)))
+    /\ IF EmptyLooksAtChildren THEN \A j \in ElemChildren(doc, i) : doc[j].k = "BR"
+       ELSE ElemChildren(doc, i) = {} \/ Cardinality(ElemChildren(doc, i)) = Cardinality(BrBelow(doc, i))
 
 \* ---- builder state ---------------------------------------------------------
 \* log: the builder calls made so far, one record per call (what the verif hooks of
@@ -155,6 +158,12 @@ NoHiddenOrSkippedText(doc, es) ==
     \A n \in 1..Len(EmittedNodes(es)) :
        LET i == EmittedNodes(es)[n]
        IN  ~UnderKind(doc, i, SilentKinds \cup {"SKF"} \cup MediaLeaf \cup {"DT"}) /\ doc[i].k # "CMT"
+
+\* C08: every picture, video, embed, figure and data table a reader sees is handed on as an element of its own
+\* (whether it is kept is the document filters' business)
+SeenMedia(doc) == {i \in 1..Len(doc) : doc[i].k \in MediaLeaf \cup {"DT"}
+                                        /\ ~UnderKind(doc, i, SilentKinds \cup {"SKF", "MRK", "DT"} \cup MediaLeaf)}
+MediaAllEmitted(doc, es) == \A i \in SeenMedia(doc) : \E n \in 1..Len(es) : es[n].t \in {"media", "table"} /\ es[n].node = i
 
 \* C07: tags are balanced and every Text element sits under the nest chain of its source nodes
 OpenTagsBefore(es, n) ==
